@@ -16,6 +16,7 @@ package threshold
 //@   invariant [sync-handlers]  forall k string :: k in this.syncsInProgress ==> this.syncsInProgress[k] != nil
 //@   invariant [rbc-handlers]   forall k string :: k in this.rbcInProgress ==> this.rbcInProgress[k] != nil
 //@   invariant [classifiers]    forall k string :: k in this.messageClassifiers ==> this.messageClassifiers[k] != nil
+//@   invariant [dkg-idle]       !this.dkgRunning ==> !(sha256("DKG") in this.messageClassifiers)
 
 // ---- wire encoding of acknowledgements (C13) ----------------------------------------------------------------
 
@@ -290,3 +291,58 @@ package threshold
 //@   on-call (*Scheme).prepareSigning(ss, mm, ps, th, sg):
 //@     assert [session-members] len(sg) == len(signers) && forall i int :: 0 <= i && i < len(signers) ==> uint16(sg[i]) == signers[i]
 //@     assert [session-parties] same(ps, partyIDs) && mm == membership
+
+// ---- sessions leave no residue (C12): sequential reading of the session tables ---------------------------------------
+
+//@ once (*Scheme).setupOnce
+//@   ensures [tables] this.syncsInProgress != nil && this.rbcInProgress != nil && this.messageClassifiers != nil &&
+//@                    this.RBF != nil && this.SyncFactory != nil
+//@
+//@ func (*Scheme).initializeSyncForSigning
+//@   props C12
+//@   seq
+//@   requires s.syncsInProgress != nil
+//@   modifies s.syncsInProgress[*]
+//@   ensures [refused]  old(string(topicHash) in s.syncsInProgress) ==> result.1 != nil
+//@   ensures [admitted] !old(string(topicHash) in s.syncsInProgress) ==> result.1 == nil && result.0 != nil
+//@   ensures [others]   forall k string :: k != string(topicHash) ==> (k in s.syncsInProgress) == old(k in s.syncsInProgress)
+//@   on-call s.SyncFactory(ms, bc, sd):
+//@     assume-result result != nil
+//@
+//@ func (*Scheme).ensureDKGNotRunning
+//@   props C12
+//@   seq
+//@   modifies s.dkgRunning
+//@   ensures [refused]  old(s.dkgRunning) ==> result != nil && s.dkgRunning
+//@   ensures [admitted] !old(s.dkgRunning) ==> result == nil && s.dkgRunning
+//@   ensures [idle]     result == nil ==> !(sha256("DKG") in s.messageClassifiers)
+//@
+//@ func (*Scheme).Sign
+//@   props C12 C11
+//@   seq
+//@   requires c != nil
+//@   at return:
+//@     assert [no-sync-residue]       was(string(topicHash), s.syncsInProgress) || !(string(topicHash) in s.syncsInProgress)
+//@     assert [no-classifier-residue] was(string(topicHash), s.messageClassifiers) || !(string(topicHash) in s.messageClassifiers)
+//@     assert [no-rbc-residue]        was(string(topicHash), s.rbcInProgress) || !(string(topicHash) in s.rbcInProgress)
+//@     assert [timeout-is-error]      done(ctx) ==> result.1 != nil
+//@
+//@ func (*Scheme).KeyGen
+//@   props C12 C11
+//@   seq
+//@   requires ctx != nil
+//@   on-call s.SyncFactory(ms, bc, sd):
+//@     assume-result result != nil
+//@   on-call s.KeyGenFactory(id):
+//@     assume-result result != nil
+//@   at return:
+//@     assert [no-sync-residue]       was(string(dkgTopicHash), s.syncsInProgress) || !(string(dkgTopicHash) in s.syncsInProgress)
+//@     assert [no-classifier-residue] was(string(dkgTopicHash), s.messageClassifiers) || !(string(dkgTopicHash) in s.messageClassifiers)
+//@     assert [no-rbc-residue]        was(string(dkgTopicHash), s.rbcInProgress) || !(string(dkgTopicHash) in s.rbcInProgress)
+//@     assert [flag-released]         old(s.dkgRunning) || !s.dkgRunning
+
+//@ func (*Scheme).runDKG
+//@   props C11
+//@   requires ctx != nil && membership != nil && dkgProtocolInstance != nil && sync != nil
+//@   at return:
+//@     assert [timeout-is-error] done(ctx) ==> result.2 != nil
